@@ -64,3 +64,36 @@ Definition deq_busy (d : dpc) : bool :=
 Definition held (d : dpc) : N := if deq_busy d then 1 else 0.
 (* is the processor about to return a window slot? *)
 Definition credit (p : ppc) : N := match p with PAckDel _ => 1 | _ => 0 end.
+
+(* c16_slots_not_lost2: the clause c16_slots_not_lost of ConnSpec4.v with one correction: an
+   acknowledgement that was received frees its window slot only when the stored packet has
+   been deleted successfully ([s2_ack]: acknowledgements in the processor's hands).  The
+   dequeuer (a goroutine that has delivered before and is not inside Dequeue) reports a
+   token-wait timeout only when  in flight + acknowledgements in hand >= W,  unless the peer
+   has acknowledged an id not in flight. *)
+Record sl2_st := Sl2St { s2_w : N; s2_fl : list N; s2_ack : list N; s2_spur : bool; s2_idle : list N }.
+Definition sl2_step (s : sl2_st) (e : event) : option sl2_st :=
+  match e with
+  | ENewConn => Some (Sl2St 0 [] [] (s2_spur s) [])
+  | ESetup _ (SOk _ fresh w _ _) =>
+      Some (Sl2St w (s2_fl s) (s2_ack s) (if fresh then false else s2_spur s) (s2_idle s))
+  | EDeqCall g => Some (Sl2St (s2_w s) (s2_fl s) (s2_ack s) (s2_spur s) (filter (fun x => negb (x =? g)) (s2_idle s)))
+  | ETx g (Publish false m id) _ true =>
+      Some (Sl2St (s2_w s) (if (m_qos m =? 0) || nmem id (s2_fl s) then s2_fl s else id :: s2_fl s) (s2_ack s) (s2_spur s)
+                  (if nmem g (s2_idle s) then s2_idle s else g :: s2_idle s))
+  | ETx _ (Publish true _ id) _ true | ETx _ (Pubrel id) _ true =>
+      Some (Sl2St (s2_w s) (if nmem id (s2_fl s) then s2_fl s else id :: s2_fl s) (s2_ack s) (s2_spur s) (s2_idle s))
+  | ERx _ (Puback id) | ERx _ (Pubcomp id) =>
+      if nmem id (s2_fl s)
+      then Some (Sl2St (s2_w s) (nremove1 id (s2_fl s)) (id :: s2_ack s) (s2_spur s) (s2_idle s))
+      else Some (Sl2St (s2_w s) (s2_fl s) (s2_ack s) true (s2_idle s))
+  | ERx _ (Pubrec id) =>
+      if nmem id (s2_fl s) then Some s else Some (Sl2St (s2_w s) (s2_fl s) (s2_ack s) true (s2_idle s))
+  | EDelete _ Outgoing id true =>
+      Some (Sl2St (s2_w s) (s2_fl s) (nremove1 id (s2_ack s)) (s2_spur s) (s2_idle s))
+  | EDie g KClient =>
+      if nmem g (s2_idle s) && negb (s2_spur s)
+         && (N.of_nat (length (s2_fl s) + length (s2_ack s)) <? s2_w s) then None else Some s
+  | _ => Some s
+  end.
+Definition c16_slots_not_lost2 (es : list event) : bool := scan sl2_step (Sl2St 0 [] [] false []) es.
